@@ -73,6 +73,7 @@ def gen_case(rng, idx, tier):
         # one declared output exists as a DIRECTORY: os.remove cannot delete it; everything else must still be cleaned
         "dir_pick": rng.randrange(1 << 30) if rng.random() < 0.15 else None,
         "late_pick": rng.randrange(1 << 30) if rng.random() < 0.5 else None,
+        "verbosity": rng.choice([None, None, "warning", "error", "debug"]),
     }
 
 
@@ -153,6 +154,8 @@ def run_case(case):
                     with open(dp, "w") as fh:
                         fh.write("decoy\n")
         before = gen.snapshot(proj.base, skip=("sim/",))
+        if case.get("verbosity"):
+            pre = pre + ["-v", case["verbosity"]]  # what is deleted never depends on how much is logged
         args = pre + ["clean"] + (["--all"] if case["all"] else []) + (["-f"] if case["force"] else []) + case["patterns"]
         env = cli.env_for(proj.simdir, ("slurm",))
         # sometimes an unprotected output of a selected target that was absent APPEARS while gwf waits at its prompt
